@@ -230,11 +230,41 @@ static int clr_id[MAXVIS];       /* id of each element handed to the clear callb
 static int nclr;
 static int pre_ids[MAXLEN];
 
+/* a list of lists: the clear callback clears two small independent lists (other link members, another callback and
+ * private pointer) before it deals with its own element */
+static struct lelem ncl_el[6]; static int ncl_calls, ncl_bad;
+static void ncl_cb(void *obj, void *priv)
+{
+    struct lelem *e = obj;
+    (void)priv;
+    if (e < ncl_el || e >= ncl_el + 6 || e->magic != MAGIC) ncl_bad++;
+    ncl_calls++;
+}
+static void nested_list_clear(void)
+{
+    static struct cstl_dlist nd; static struct cstl_slist ns;
+    int q, saved = g_inlib;
+    ncl_calls = ncl_bad = 0;
+    g_inlib = 1;
+    cstl_dlist_init(&nd, offsetof(struct lelem, dn2)); cstl_slist_init(&ns, offsetof(struct lelem, sn2));
+    for (q = 0; q < 6; q++) {
+        ncl_el[q].magic = MAGIC; ncl_el[q].tail = ~MAGIC; ncl_el[q].key = q; ncl_el[q].id = -4;
+        if (q < 3) cstl_dlist_push_back(&nd, &ncl_el[q]); else cstl_slist_push_back(&ns, &ncl_el[q]);
+    }
+    cstl_dlist_clear(&nd, ncl_cb);
+    cstl_slist_clear(&ns, ncl_cb);
+    g_inlib = saved;
+    if (ncl_calls != 6 || ncl_bad || cstl_dlist_size(&nd) != 0 || cstl_slist_size(&ns) != 0)
+        sim_violation("C15/nested_clear/clear/list-of-lists", "two independent 3-element lists cleared from inside a clear callback: %d callbacks (%d with a wrong element)", ncl_calls, ncl_bad);
+    PROBE("clear_callback_clears_other_lists");
+}
+
 static void clear_cb(void *obj, void *priv)
 {
     CB_ENTER();
     struct lelem *e = obj;
     int id = -1;
+    if (reentrant) nested_list_clear();
     (void)priv;
     if (simheap_is_live(e) && e->magic == MAGIC && e->tail == ~MAGIC) id = e->id;
     if (nclr < MAXVIS) clr_id[nclr] = id;
